@@ -647,6 +647,9 @@ class SArr:
         if r[0] == 'fancy':
             raise Unsupported('fancy-index assignment at %s' % _site())
         out_shape, imap = r
+        if isinstance(value, (list, tuple)):
+            from .symnp import asarray
+            value = asarray(value)
         # value must broadcast to out_shape
         if isinstance(value, SArr) or (hasattr(value, 'shape') and not isinstance(value, (Sc, Cx)) and getattr(value, 'ndim', 0) > 0):
             from .symnp import asarray
